@@ -58,8 +58,10 @@ struct SpinHarness {
 		if(lock().is_locked()) throw Violation{"C12", "spinlock:left-locked", "lock still held after every thread unlocked"};
 		if(Ticket) {
 			// grants follow ticket order: the order of the fetch_adds on the ticket word
-			int k = 0;
-			for(int i = 0; i < vs_tr.npoints; i++) if(vs_tr.pts[i].kind == VS_RMW) {
+			// (only read-modify-writes on the ticket word count: the word the first RMW of the execution touches)
+			int k = 0; const void *ticket_word = nullptr;
+			for(int i = 0; i < vs_tr.npoints && !ticket_word; i++) if(vs_tr.pts[i].kind == VS_RMW) ticket_word = vs_tr.pts[i].addr;
+			for(int i = 0; i < vs_tr.npoints; i++) if(vs_tr.pts[i].kind == VS_RMW && vs_tr.pts[i].addr == ticket_word) {
 				if(k >= nentries || entries[k] != vs_tr.pts[i].tid) throw Violation{"C12", "ticket:order", "critical sections were not entered in ticket order"};
 				k++;
 			}
